@@ -33,9 +33,10 @@ they may differ by re-association only: ``|R2 - R1|, |REF - R1| <= 1e-11 * max(1
 (computed by REF) is the sum of the magnitudes of the individual terms of the formula including the
 intermediate fields of nested operators (bounded with the operator norm ``NL = 2*sum(4/dx_a**2)``); this
 is round-off (1e-16) x the number of operations with five orders of slack, nothing is tuned.
-R3 works with parameters printed by ``{:g}``: its tolerance is ``(1e-10 + 2*sum_k rel_k) * max(1, mag)``
+R3 works with parameters printed by ``{:g}``: its tolerance is ``1e-10 * max(1, mag) + 2 * sum_k rel_k * magp``
 where ``rel_k = |float(f"{q_k:g}") - q_k| / |q_k|`` is the *actual* printing error of every printed
-coefficient ``q_k`` (computed here, independently of ``expr_prod``): parameter set A (<= 6 significant
+coefficient ``q_k`` (computed here, independently of ``expr_prod``) and ``magp`` is the magnitude of the
+terms these coefficients multiply (from REF): parameter set A (<= 6 significant
 digits) prints exactly, so R3 must agree to round-off; set B (1/3-type values) gives <= 5e-6 per
 coefficient, i.e. the "6 printed digits" (1e-5) of the property; set C (values 1, -1, 0) walks through
 the special branches of ``expr_prod`` / ``isclose(mobility, 1)`` / ``mass == 0``.
@@ -363,7 +364,9 @@ def r3_rule(name, same_bc, hom):
 
 
 def reference_rate(np, name, P, grid, fields, B1, B2, t, NL):
-    """the documented formula evaluated with the field API; returns (rate, magnitude of its terms)"""
+    """the documented formula evaluated with the field API; returns (rate, magnitude of all terms and
+    intermediate fields [round-off scale], magnitude of the terms that carry a printed coefficient
+    [scale of the printing error of the expression text])"""
     from pde import ScalarField
 
     args = {"t": t}
@@ -372,21 +375,25 @@ def reference_rate(np, name, P, grid, fields, B1, B2, t, NL):
     cd = c.data
     if name == "DiffusionPDE":
         lap = c.laplace(B1, args=args).data
-        return P["diffusivity"] * lap, abs(P["diffusivity"]) * n(lap)
+        m = abs(P["diffusivity"]) * n(lap)
+        return P["diffusivity"] * lap, m, m
     if name == "AllenCahnPDE":
         lap = c.laplace(B1, args=args).data
         g, m = P["interface_width"], P["mobility"]
-        return m * (g * lap - cd**3 + cd), abs(m) * (abs(g) * n(lap) + n(cd) ** 3 + n(cd))
+        mag = abs(m) * (abs(g) * n(lap) + n(cd) ** 3 + n(cd))
+        return m * (g * lap - cd**3 + cd), mag, mag
     if name == "CahnHilliardPDE":
         g = P["interface_width"]
         lap = c.laplace(B1, args=args).data
         mu = ScalarField(grid, cd**3 - cd - g * lap)
         rate = mu.laplace(B2, args=args).data
-        return rate, n(rate) + NL * (n(cd) ** 3 + n(cd) + abs(g) * n(lap))
+        # printed: g, which multiplies A_mu(L_c c) (A = linear part of the outer Laplacian, |A x| <= NL |x|)
+        return rate, n(rate) + NL * (n(cd) ** 3 + n(cd) + abs(g) * n(lap)), abs(g) * NL * n(lap)
     if name == "KPZInterfacePDE":
         lap = c.laplace(B1, args=args).data
         gs = c.gradient_squared(B1, args=args).data
-        return P["nu"] * lap + P["lmbda"] * gs, abs(P["nu"]) * n(lap) + abs(P["lmbda"]) * n(gs)
+        mag = abs(P["nu"]) * n(lap) + abs(P["lmbda"]) * n(gs)
+        return P["nu"] * lap + P["lmbda"] * gs, mag, mag
     if name == "KuramotoSivashinskyPDE":
         nu = P["nu"]
         lapf = c.laplace(B1, args=args)
@@ -394,7 +401,8 @@ def reference_rate(np, name, P, grid, fields, B1, B2, t, NL):
         lap2 = lapf.laplace(B2, args=args).data
         gs = c.gradient_squared(B1, args=args).data
         rate = -nu * lap2 - lap - 0.5 * gs
-        return rate, abs(nu) * n(lap2) + n(lap) + 0.5 * n(gs) + NL * (n(cd) + abs(nu) * n(lap))
+        # printed: nu, which multiplies L(L c) (R3 is compared for homogeneous conditions only: A = L)
+        return rate, abs(nu) * n(lap2) + n(lap) + 0.5 * n(gs) + NL * (n(cd) + abs(nu) * n(lap)), abs(nu) * n(lap2)
     if name == "SwiftHohenbergPDE":
         eps, kc2, dl = P["rate"], P["kc2"], P["delta"]
         lapf = c.laplace(B1, args=args)
@@ -402,15 +410,16 @@ def reference_rate(np, name, P, grid, fields, B1, B2, t, NL):
         lap2 = lapf.laplace(B2, args=args).data
         rate = eps * cd - kc2 * kc2 * cd - 2 * kc2 * lap - lap2 + dl * cd**2 - cd**3
         mag = (abs(eps) + kc2 * kc2) * n(cd) + 2 * abs(kc2) * n(lap) + n(lap2) + abs(dl) * n(cd) ** 2 + n(cd) ** 3
-        return rate, mag + NL * (2 * abs(kc2) * n(cd) + n(lap))
+        magp = abs(eps - kc2 * kc2) * n(cd) + abs(dl) * n(cd) ** 2 + 2 * abs(kc2) * n(lap)
+        return rate, mag + NL * (2 * abs(kc2) * n(cd) + n(lap)), magp
     u, v = fields
     lap = u.laplace(B1, args=args).data
     s2 = P["speed"] * P["speed"]
     if name == "WavePDE":
-        return np.stack([v.data, s2 * lap]), n(v.data) + s2 * n(lap)
+        return np.stack([v.data, s2 * lap]), n(v.data) + s2 * n(lap), s2 * n(lap)
     if name == "KleinGordonPDE":
         m2 = P["mass"] * P["mass"]
-        return np.stack([v.data, s2 * lap - m2 * u.data]), n(v.data) + s2 * n(lap) + m2 * n(u.data)
+        return np.stack([v.data, s2 * lap - m2 * u.data]), n(v.data) + s2 * n(lap) + m2 * n(u.data), s2 * n(lap) + m2 * n(u.data)
     raise ValueError(name)
 
 
@@ -536,8 +545,7 @@ def class_case(case):
             "msg": f"{name}({P}) on {grid_name(spec)} bc={bc[1:] or 'default'} t={t} state[{label}]={[float(x) for x in p]}: "
                    f"{clause}: max diff {float(np.nanmax(diff)):.3g} (tolerance {tol:.3g})",
             "detail": {"got": np.asarray(got).tolist(), "expected": np.asarray(exp).tolist(), "params": P,
-                       "bc_given": repr(kw.get("bc", (kw.get(info["two"][0]) if info["two"] else None,
-                                                      kw.get(info["two"][1]) if info["two"] else None)))[:600],
+                       "bc_given": {k: repr(v)[:300] for k, v in kw.items() if k.startswith("bc")},
                        "expression": text, "extra": extra},
             "case": c2,
             "fn": "checks.c10:class_case",
@@ -556,7 +564,7 @@ def class_case(case):
             state = mkstate(p)
             r1 = np.array(eq.evolution_rate(state.copy(), t).data)
             flds = [state] if nf == 1 else list(state)
-            ref, mag = reference_rate(np, name, P, grid, [f.copy() for f in flds], B1, B2, t, NL)
+            ref, mag, magp = reference_rate(np, name, P, grid, [f.copy() for f in flds], B1, B2, t, NL)
             scale = max(1.0, mag, _nrm(np, r1))
             tol = 1e-11 * scale
             n += 2
@@ -573,7 +581,7 @@ def class_case(case):
                 if not close(val, r1, tol):
                     bad("evolution_rate with conditions given as dict differs from the same conditions parsed once",
                         label, p, t, val, r1, tol)
-            tol3 = (1e-10 + 2 * rel3) * scale
+            tol3 = 1e-10 * scale + 2 * rel3 * magp
             for b, f in rhs3.items():
                 val = f(state.data.copy(), t)
                 n += 1
